@@ -315,11 +315,7 @@ def continues(kind, nt):
 
 def oracle(case, out):
     if "second" in out:
-        r = out["second"]
-        if r["outB"] != r["fresh"]:
-            return (f"a second subscriber (at {case['second']['sub2']}, first one disposed at {case['second']['dispose1']}) of the same "
-                    f"observable got {r['outB']}, a subscriber of a fresh instance gets {r['fresh']}: not the concatenation of ITS sources' elements")
-        return None
+        return cc.second_failure(case, out["second"], "not the concatenation of ITS sources' elements")
     log = out["log"]
     op = case["op"]
     kind = kind_of(op)
